@@ -348,10 +348,12 @@ impl DatagramSource {
         };
 
         let mut buffer = BytesMut::zeroed(net_utils::MAX_UDP_PAYLOAD_SIZE);
-        let (n, peer) = socket
-            .recv_from(buffer.as_mut())
-            .await
-            .map_err(socks_to_io_error)?;
+        // The readiness that led here may be stale (left over from an earlier datagram): waiting
+        // for this socket would keep the replies of every other association from being read
+        let (n, peer) = match futures::FutureExt::now_or_never(socket.recv_from(buffer.as_mut())) {
+            None => return Ok(None),
+            Some(x) => x.map_err(socks_to_io_error)?,
+        };
         buffer.truncate(n);
 
         Ok(Some(forwarder::UdpDatagramReadStatus::Read(
